@@ -133,25 +133,25 @@ func (v Val) Go() any {
 		}
 		return out
 	case "strlist":
-		out := make([]string, len(v.L))
+		out := make([]string, len(v.L), len(v.L)+emptyCap(len(v.L)))
 		for i, e := range v.L {
 			out[i] = e.S
 		}
 		return out
 	case "intlist":
-		out := make([]int, len(v.L))
+		out := make([]int, len(v.L), len(v.L)+emptyCap(len(v.L)))
 		for i, e := range v.L {
 			out[i] = int(mustInt(e.S, 64))
 		}
 		return out
 	case "f64list":
-		out := make([]float64, len(v.L))
+		out := make([]float64, len(v.L), len(v.L)+emptyCap(len(v.L)))
 		for i, e := range v.L {
 			out[i] = parseFloat(e.S, 64)
 		}
 		return out
 	case "boollist":
-		out := make([]bool, len(v.L))
+		out := make([]bool, len(v.L), len(v.L)+emptyCap(len(v.L)))
 		for i, e := range v.L {
 			out[i] = e.S == "true"
 		}
